@@ -743,16 +743,24 @@ fn pass_x3(text: String, ex: &Extract, probes: bool, probe_ctr: &mut usize) -> R
                 let k = strip(key);
                 // among the closures whose window contains the key the SHORTEST one wins (a closure nested in
                 // another one is also part of the outer one's text)
-                // a closure whose OWN text contains the key is preferred; the 120-byte context window is the fall-back
-                let own = cf.whole.iter().enumerate().filter(|(_, (a, b))| strip(&text[*a..*b]).contains(k.as_str())).min_by_key(|(_, (a, b))| b - a).map(|(i, _)| i);
-                match own {
-                    Some(i) => i,
-                    None => cf.whole.iter().enumerate().filter(|(_, (a, b))| {
-                        let mut from = a.saturating_sub(120);
-                        while !text.is_char_boundary(from) { from += 1; }
-                        strip(&text[from..*b]).contains(k.as_str())
-                    }).min_by_key(|(_, (a, b))| b - a).map(|(i, _)| i).ok_or(Fail(format!("closure_key {} not found: {}", kno, key)))?,
-                }
+                // the key must match the closure text preceded by up to 120 bytes of context, and the match must reach INTO the
+                // closure's own text (a match lying entirely in the context belongs to an earlier closure)
+                cf.whole.iter().enumerate().filter(|(_, (a, b))| {
+                    let mut from = a.saturating_sub(120);
+                    while !text.is_char_boundary(from) { from += 1; }
+                    let ctx = strip(&text[from..*a]);
+                    let win = format!("{}{}", ctx, strip(&text[*a..*b]));
+                    let mut start = 0usize;
+                    let mut ok = false;
+                    while let Some(pos) = win[start..].find(k.as_str()) {
+                        let end = start + pos + k.len();
+                        if end > ctx.len() { ok = true; break; }
+                        start = start + pos + 1;
+                        while start < win.len() && !win.is_char_boundary(start) { start += 1; }
+                        if start >= win.len() { break; }
+                    }
+                    ok
+                }).min_by_key(|(_, (a, b))| b - a).map(|(i, _)| i).ok_or(Fail(format!("closure_key {} not found: {}", kno, key)))?
             }
             None => kno - 1,
         };
